@@ -1,7 +1,7 @@
 (* Dispatch/DC19.v — entry points of the C19 model for the correspondence check. *)
 From Coq Require Import String.
 From V Require Import Base.Prelude Base.Ints Base.Disp Model.Helper Model.Block Model.Gcs
-  Model.Network.
+  Model.Network Model.Wire Model.Hex Spec.P2P.
 Open Scope string_scope.
 Open Scope Z_scope.
 
@@ -13,6 +13,25 @@ Fixpoint dedup_adj (l : list Z) : list Z :=
   | a :: ((b :: _) as r) => if a =? b then dedup_adj r else a :: dedup_adj r
   | _ => l
   end.
+
+(* a parsed message as the harness sees it: [tag; fields...] *)
+Definition vmsg (H : oracle) (m : message) : val :=
+  match m with
+  | MVerAck => VL [VI 0]
+  | MPing n => VL [VI 1; VB n]
+  | MPong n => VL [VI 2; VB n]
+  | MHeaders hs => VL [VI 3; VL (map vheader hs)]
+  | MCFilter t bh fb items => VL [VI 4; VI t; VB bh; VB fb; vil (dedup_adj items)]
+  | MCFHeaders t stop prev hs =>
+      VL [VI 5; VI t; VB stop; VB prev; vbl hs; VB (cfheader_chain (o_hash256 H) prev hs)]
+  | MCFCheckPt t stop hs => VL [VI 6; VI t; VB stop; vbl hs]
+  end.
+
+Definition vaddr (a : net_addr) : val := VL [VI (na_services a); VB (na_ip a); VI (na_port a)].
+Definition vversion (v : p2p_version) : val :=
+  VL [VI (pv_version v); VI (pv_services v); VI (pv_timestamp v); vaddr (pv_addr_recv v);
+      vaddr (pv_addr_from v); VB (pv_nonce v); VB (pv_user_agent v); VI (pv_start_height v);
+      vbool (pv_relay v)].
 
 Definition dispatch (H : oracle) (fn : list Z) (args : list val) : val :=
   if fn_is "int_to_le" fn then
@@ -100,5 +119,80 @@ Definition dispatch (H : oracle) (fn : list Z) (args : list val) : val :=
     match args with
     | [VB s] =>
         vres (fun '(t, stop, hs, r) => VL [VI t; VB stop; vbl hs; VB r]) (cfcheckpt_parse s)
+    | _ => bad_args end
+  else if fn_is "int_to_byte" fn then
+    match args with [VI n] => vres_b (int_to_byte n) | _ => bad_args end
+  else if fn_is "byte_to_int" fn then
+    match args with [VB b] => vres_i (byte_to_int b) | _ => bad_args end
+  (* ---- Spec/P2P.v: the strict protocol decoders ---- *)
+  else if fn_is "read_cs" fn then
+    match args with [VB s] => vres (fun '(n, r) => VL [VI n; VB r]) (read_cs s) | _ => bad_args end
+  else if fn_is "p2p_version_decode" fn then
+    match args with
+    | [VB s] => vres (fun '(v, r) => VL [vversion v; VB r]) (p2p_version_decode s)
+    | _ => bad_args end
+  else if fn_is "p2p_getheaders_decode" fn then
+    match args with
+    | [VB s] => vres (fun '(v, loc, stop, r) => VL [VI v; vbl loc; VB stop; VB r]) (p2p_getheaders_decode s)
+    | _ => bad_args end
+  else if fn_is "p2p_getdata_decode" fn then
+    match args with
+    | [VB s] =>
+        vres (fun '(items, r) => VL [VL (map (fun it => VL [VI (fst it); VB (snd it)]) items); VB r])
+             (p2p_getdata_decode s)
+    | _ => bad_args end
+  else if fn_is "p2p_getcfilters_decode" fn then
+    match args with
+    | [VB s] => vres (fun '(t, h, stop, r) => VL [VI t; VI h; VB stop; VB r]) (p2p_getcfilters_decode s)
+    | _ => bad_args end
+  else if fn_is "p2p_getcfcheckpt_decode" fn then
+    match args with
+    | [VB s] => vres (fun '(t, stop, r) => VL [VI t; VB stop; VB r]) (p2p_getcfcheckpt_decode s)
+    | _ => bad_args end
+  (* ---- Model/Wire.v ---- *)
+  else if fn_is "version_default_serialize" fn then
+    match args with
+    | [VI now; VI r] => vres_b (m <- version_default now r ;; version_serialize m)
+    | _ => bad_args end
+  else if fn_is "randint_bounds" fn then
+    match args with [] => VL [VI randint_lo; VI randint_hi] | _ => bad_args end
+  else if fn_is "node_send" fn then
+    match args with
+    | [VI net; VB cmd; VB payload] => vres_b (node_send (o_hash256 H) net cmd (Ok payload))
+    | _ => bad_args end
+  else if fn_is "node_wait_for" fn then
+    match args with
+    | [VI net; VL wanted; VB s] =>
+        match vals_bytes wanted with
+        | Some w =>
+            vres (fun '(m, rest, sent) => VL [vmsg H m; VB rest; vbl sent])
+                 (node_wait_for_msg (o_hash256 H) net w s)
+        | None => bad_args
+        end
+    | _ => bad_args end
+  else if fn_is "node_handshake" fn then
+    match args with
+    | [VI net; VI now; VI r; VB s] =>
+        vres (fun '(rest, sent) => VL [VB rest; vbl sent]) (node_handshake (o_hash256 H) net now r s)
+    | _ => bad_args end
+  (* ---- Model/Hex.v ---- *)
+  else if fn_is "hex_decode" fn then
+    match args with [VB t] => vres_b (hex_decode t) | _ => bad_args end
+  else if fn_is "hex_encode" fn then
+    match args with [VB b] => VB (hex_encode b) | _ => bad_args end
+  else if fn_is "parse_header_hex" fn then
+    match args with
+    | [VB t] => vres (fun '(h, _) => vheader h) (parse_header_hex t)   (* the stream is internal *)
+    | _ => bad_args end
+  else if fn_is "cfilter_eq" fn then
+    match args with
+    | [VB s1; VB s2] =>
+        vres_bool ('(t1, bh1, fb1, _, _) <- cfilter_parse s1 ;;
+                   '(t2, bh2, fb2, _, _) <- cfilter_parse s2 ;;
+                   Ok (cfilter_eq (t1, bh1, fb1) (t2, bh2, fb2)))
+    | _ => bad_args end
+  else if fn_is "cfilter_hash" fn then
+    match args with
+    | [VB s1] => vres_b ('(_, _, fb, _, _) <- cfilter_parse s1 ;; Ok (o_hash256 H fb))
     | _ => bad_args end
   else bad_args.
